@@ -417,8 +417,19 @@ def make_app(programs, state):
         if fail == "before_sr":
             raise boom("before start_response")
         headers = [(n, v) for n, v in prog.get("headers", [])]
+        first = prog.get("first_sr")
         try:
-            write = start_response(prog["status"], headers)
+            if first:
+                # PEP 3333: an application may call start_response again, with exc_info, as long as nothing was sent: the new status and
+                # headers REPLACE the earlier ones (the error-handler idiom).  status/headers of the program describe the final call
+                import sys as _sys
+                start_response(first["status"], [(n, v) for n, v in first.get("headers", [])])
+                try:
+                    raise AppFailure("replaced")
+                except AppFailure:
+                    write = start_response(prog["status"], headers, _sys.exc_info())
+            else:
+                write = start_response(prog["status"], headers)
         except Exception as e:
             state.sr_errors.append(type(e).__name__)
             raise
@@ -447,10 +458,17 @@ def make_app(programs, state):
         if second and second.get("when") == "before_write":
             late_sr()
 
+        delays = prog.get("delays") or []
+
+        def wait_before(i):
+            if i < len(delays) and delays[i]:
+                pause(delays[i])
+
         if kind == "write":
             for i, c in enumerate(chunks):
                 if fail == "chunk:%d" % i:
                     raise boom("in write %d" % i)
+                wait_before(i)
                 write(c)
                 produced.append(c)
                 if second and second.get("when") == "after_write" and i == 0:
@@ -486,6 +504,7 @@ def make_app(programs, state):
             for i, c in enumerate(chunks):
                 if fail == "chunk:%d" % i:
                     raise boom("in chunk %d" % i)
+                wait_before(i)
                 produced.append(c)
                 yield c
                 if second and second.get("when") == "after_write" and i == 0:
@@ -521,11 +540,53 @@ class Closer:
 
 
 # ----------------------------------------------------------------------------- workers
+class _TimeoutFired(BaseException):
+    """gevent.Timeout / eventlet.Timeout derive from BaseException."""
+
+    def __init__(self, ctx):
+        BaseException.__init__(self)
+        self.ctx = ctx
+
+
+TIMEOUTS = []      # armed simulated timeout contexts of the connection being served (innermost last)
+
+
+class SimTimeoutCtx:
+    """Timeout(seconds, False): fires at the first switch point (pause()) at or after its deadline and silently leaves the with-block."""
+
+    def __init__(self, seconds):
+        self.seconds = seconds
+        self.deadline = None
+
+    def __enter__(self):
+        self.deadline = None if self.seconds is None else CLOCK.t + self.seconds
+        TIMEOUTS.append(self)
+        return self
+
+    def __exit__(self, typ, val, tb):
+        if self in TIMEOUTS:
+            TIMEOUTS.remove(self)
+        return isinstance(val, _TimeoutFired) and val.ctx is self
+
+
+def pause(seconds):
+    """A point at which the calling green thread waits `seconds` (application sleeping / waiting for its own I/O): time passes, and an
+    armed timeout whose deadline is reached fires here.  For the sync and threaded families it only advances the clock."""
+    if seconds <= 0:
+        return
+    due = [c for c in TIMEOUTS if c.deadline is not None and c.deadline <= CLOCK.t + seconds]
+    if due:
+        first = min(due, key=lambda c: c.deadline)
+        CLOCK.t = max(CLOCK.t, first.deadline)
+        raise _TimeoutFired(first)
+    CLOCK.t += seconds
+
+
 class SimAsyncWorker(AsyncWorker):
     """The class-independent real code of the gevent/eventlet family with a simulated timeout context."""
 
     def timeout_ctx(self):
-        return contextlib.nullcontext()
+        return SimTimeoutCtx(self.cfg.keepalive or None)
 
 
 class DummyApp:
@@ -567,6 +628,7 @@ def make_worker(family, cfg, app_fn, name=("127.0.0.1", 8000), jitter_draw=0):
 
 def reset_run():
     CLOCK.reset()
+    del TIMEOUTS[:]
     FAKE_OS.reset()
     ACCESS.records.clear()
     ERRORS.records.clear()
